@@ -37,6 +37,7 @@ type C10Case struct {
 	Progs    [][]C10Op `json:"progs"`
 	Sched    []int     `json:"sched,omitempty"`
 	AllSched bool      `json:"allsched,omitempty"` // enumerate every schedule (bounded by MaxSched)
+	YieldRel bool      `json:"yieldrel,omitempty"` // also yield right after every unlock (code running after the critical section is interleaved too)
 	Free     bool      `json:"free,omitempty"`     // free-running (no scheduler)
 }
 
@@ -223,6 +224,10 @@ func c10RunScheduled(c C10Case, sched []int) (out c10Outcome) {
 		case "lock.released":
 			owner = -1
 			lastReleased = slotIDs(s)
+			if c.YieldRel {
+				events <- event{g: g, kind: "released"}
+				<-resume[g]
+			}
 		}
 	}
 	defer func() { stackage.VerifHook = nil }()
@@ -302,7 +307,7 @@ func c10RunScheduled(c C10Case, sched []int) (out c10Outcome) {
 		case "panic":
 			out.viol = violf("panic", "goroutine %d panicked: %s; history %v", ev.g, ev.msg, out.history)
 			return
-		case "want", "opdone", "finished":
+		case "want", "opdone", "finished", "released":
 			state[ev.g] = ev.kind
 			out.history = append(out.history, fmt.Sprintf("g%d:%s", ev.g, ev.kind))
 		}
@@ -594,7 +599,8 @@ func genC10(t *rapid.T, tier Tier) C10Case {
 		c.Free = true
 		return c
 	}
-	for i := 0; i < 4*total+4; i++ {
+	c.YieldRel = rapid.Bool().Draw(t, "yieldrel")
+	for i := 0; i < 6*total+4; i++ {
 		c.Sched = append(c.Sched, rapid.IntRange(0, 2).Draw(t, "pick"))
 	}
 	return c
@@ -643,6 +649,9 @@ func enumC10(tier Tier, yield func(C10Case)) {
 					cp = init + 1
 				}
 				yield(C10Case{Kind: stackKinds[cfgN%5], FIFO: fifo, Cap: cp, Init: init, Progs: [][]C10Op{p1, p2}, AllSched: true})
+				if len(p1)+len(p2) == 2 || (tier.Thorough && (i+j)%3 == 0) {
+					yield(C10Case{Kind: stackKinds[cfgN%5], FIFO: fifo, Cap: cp, Init: init, Progs: [][]C10Op{p1, p2}, AllSched: true, YieldRel: true})
+				}
 			}
 		}
 	}
@@ -664,7 +673,7 @@ func enumC10(tier Tier, yield func(C10Case)) {
 func init() {
 	Register(Def[C10Case]{
 		ID: "C10",
-		Rule: "(A) deterministic, harness-owned schedules: 2-3 goroutines x 1-3 mutators (Push, Pop, Insert, Remove, Replace, Swap, Reverse, Reset) on a shared mutex-enabled stack of length 0..3, LIFO/FIFO, with/without capacity; a cooperative scheduler (verifPoint hook) parks each goroutine at every lock.want and at every operation boundary and the schedule picks who continues. " +
+		Rule: "(A) deterministic, harness-owned schedules: 2-3 goroutines x 1-3 mutators (Push, Pop, Insert, Remove, Replace, Swap, Reverse, Reset) on a shared mutex-enabled stack of length 0..3, LIFO/FIFO, with/without capacity; a cooperative scheduler (verifPoint hook) parks each goroutine at every lock.want and at every operation boundary (and, in half of the generated cases and part of the enumerated ones, also right after every unlock, so that code running after the critical section is interleaved too) and the schedule picks who continues. " +
 			"Enumeration: ALL schedules of 2 goroutines x <=2 ops over a 7-10 op alphabet on lengths 0..2 (quick: all single-op pairs and a deterministic seventh of the two-op pairs; thorough: all pairs plus 3x1). rapid: random programs and schedules. " +
 			"Oracle per execution: no panic; no self-deadlock, no parked-everybody deadlock, no lock leaked past an operation (from lock.held/lock.released ownership, deterministically); slot vector at lock.held equals the one at the previous lock.released (content changes only under the lock); " +
 			"IsInit/kind/capacity/FIFO intact, Len<=capacity; every returned or remaining element was pushed or initial, at most once; brute-force linearizability: some order consistent with each goroutine's program reproduces every return value and the final content on the list model. " +
